@@ -299,11 +299,17 @@ class C14(Check):
                         sc = s2_scenario(name, backend)
                         if monitor:
                             sc['progress'] = True
+                        sc['count_lines'] = True
                         d = tempfile.mkdtemp(dir=workdir)
                         try:
                             out = execute(sc, Choices(seed=f'c14s2:{sched}'), d)
                         finally:
                             shutil.rmtree(d, ignore_errors=True)
+                        if monitor and tier == 'thorough' and sched == 1:
+                            # every main-thread line boundary with the task monitor enabled, too
+                            for k in range(out.main_lines):
+                                cases.append({'workload': name, 'backend': backend, 'sched': sched, 'monitor': True,
+                                              'interrupts': [{'mode': 'line', 'k': k}]})
                         n_rpc = out.main_rpcs
                         n_rpcs['monitor' if monitor else 'plain'] = n_rpc
                         for k in range(n_rpc):
